@@ -56,6 +56,16 @@ def _numbagg_wrapper(
             if np.issubdtype(array.dtype, from_):
                 array = array.astype(to_, copy=False)
 
+    if (
+        func in ("nansum", "nanprod", "nansum_of_squares")
+        and dtype is not None
+        and array.dtype.kind in "iub"
+        and np.dtype(dtype).kind in "iuf"
+    ):
+        # numbagg accumulates in the dtype of the input: cast first so that sums and
+        # products of narrow integers do not wrap at the width of the input.
+        array = array.astype(dtype, copy=False)
+
     func_ = getattr(numbagg.grouped, f"group_{func}")
 
     result = func_(
